@@ -19,7 +19,7 @@ PROP = dict(
         level_text='proof (partial). Lean theorems for all inputs: pkglen_roundtrip (all four PkgLength encodings decode to the encoded value '
                    'and advance exactly), pkg_roundtrip (the package end the parser computes from encPkg is exactly the end of the encoded body), const_roundtrip (integer constants likewise), name_roundtrip (every name string the encoder can produce - root prefix, any number of ^, '
                    'NullName / NameSeg / DualNamePath / MultiNamePath with 3..255 segments - is read back by parseNameString: success, exact advance, the slice covers exactly '
-                   'the encoded bytes without the NullName terminator), string_roundtrip (every ASCII string with its terminator likewise), namespace_is_tree (spec side: for EVERY program namespaceOf declares no path twice and every path has its parent - the oracle compares against a well-formed namespace), facts_agree (the generated tables this run saw are the '
+                   'the encoded bytes without the NullName terminator), string_roundtrip (every ASCII string with its terminator likewise), const_object_roundtrip / name_object_roundtrip / string_object_roundtrip (one level up: from any well-formed parser state parseSimpleArg returns a NEW object that carries exactly the encoded constant / name path / string, with the right opcode, and advances by exactly the encoded length), name_decl_first_pass (declaration level: on the bytes 08 <NameString> the first pass creates a NEW Name object as the last child of the innermost open scope block with a single name-path argument carrying exactly the written path, reader right behind the name, scope stack unchanged, older objects keep their parents, pool well-formed), namespace_is_tree (spec side: for EVERY program namespaceOf declares no path twice and every path has its parent - the oracle compares against a well-formed namespace), facts_agree (the generated tables this run saw are the '
                    'ones the parser model is built on); kernel-evaluated witness theorems on the parser model for the deterministic boundary '
                    'programs: d6_counterexample, name_caret_counterexample, call_arg_expression_counterexample, '
                    'if_empty_body_counterexample, while_nested_block_counterexample (the property is false there: known findings), '
